@@ -254,7 +254,8 @@ pub fn cut(level: u8, f: &mut dyn FnMut(Case)) {
                     }
                 }
                 let mut qs = vec![cplx("p", vec![b()]), cplx("top1", vec![v("$Z")])];
-                if kk <= 60 {
+                // (with the cut clause first the call has no answer at all; with it last it has kk - 1)
+                if kk <= 60 || j == 0 {
                     qs.push(cplx("p", vec![v("$Z")]));
                 }
                 f(Case { family: fam, prog: p, queries: qs });
